@@ -49,3 +49,85 @@ def search(prop, o, seconds=45):
         return {"input_found": False, "suite": suite, "note": "no failing input in %d s of differential search (small / random inputs)" % seconds}
     finally:
         shutil.rmtree(wd, ignore_errors=True)
+
+
+# ---------------------------------------------------------------------------------------------------------------
+# Bounded differential exploration as an obligation of its own (labelled `bounded`; never counted as proved): the same
+# program, run for a fixed time budget per suite on every check.  Results are cached by the content of /repo/src,
+# the program's source, the suite, the budget and the seed.
+import hashlib
+
+
+def _digest(extra):
+    h = hashlib.sha256()
+    for root in (os.path.join(REPO, "src"), os.path.join(VERIF, "replay", "src")):
+        for dp, dn, fn in sorted(os.walk(root)):
+            dn.sort()
+            for f in sorted(fn):
+                if f.endswith(".rs"):
+                    p = os.path.join(dp, f)
+                    h.update(os.path.relpath(p, root).encode())
+                    h.update(open(p, "rb").read())
+    for f in ("Cargo.toml", "Cargo.lock"):
+        p = os.path.join(REPO, f)
+        if os.path.exists(p):
+            h.update(open(p, "rb").read())
+    h.update(repr(extra).encode())
+    return h.hexdigest()[:32]
+
+
+_BUILD = {}
+
+
+def build_program():
+    """builds the witness program against the current tree once per process; returns (exe, error)"""
+    if "r" in _BUILD:
+        return _BUILD["r"]
+    wd = tempfile.mkdtemp(prefix="witness-", dir="/dev/shm")
+    try:
+        shutil.copytree(os.path.join(VERIF, "replay", "src"), os.path.join(wd, "src"))
+        open(os.path.join(wd, "Cargo.toml"), "w").write(open(os.path.join(VERIF, "replay", "Cargo.toml.in")).read().replace("@REPO@", REPO))
+        lock = os.path.join(VERIF, "replay", "Cargo.lock")
+        if os.path.exists(lock):
+            shutil.copy(lock, os.path.join(wd, "Cargo.lock"))
+        tdir = os.path.join(VERIF, ".cache", "witness-target")
+        env = dict(os.environ, CARGO_NET_OFFLINE="true", CARGO_TARGET_DIR=tdir)
+        b = subprocess.run(["cargo", "build", "--release", "--offline"], cwd=wd, env=env, capture_output=True, text=True, timeout=1800)
+        if b.returncode != 0:
+            _BUILD["r"] = (None, b.stderr[-1500:])
+        else:
+            # keep a private copy: another check (another tree) may rebuild the shared target directory meanwhile
+            exe = os.path.join("/dev/shm", "qwt-witness-%s" % _digest("exe"))
+            shutil.copy(os.path.join(tdir, "release", "qwt-witness"), exe)
+            _BUILD["r"] = (exe, None)
+    finally:
+        shutil.rmtree(wd, ignore_errors=True)
+    return _BUILD["r"]
+
+
+def run_suite(suite, seconds, seed):
+    cdir = os.path.join(VERIF, ".cache", "wx")
+    os.makedirs(cdir, exist_ok=True)
+    key = _digest((suite, seconds, seed))
+    cp = os.path.join(cdir, key + ".json")
+    if os.path.exists(cp) and not os.environ.get("VERIF_NOCACHE"):
+        return json.load(open(cp))
+    exe, err = build_program()
+    if exe is None:
+        return {"suite": suite, "built": False, "found": False, "note": "witness program does not build against this tree", "build_error": err}
+    try:
+        r = subprocess.run([exe, suite, str(seconds), str(seed)], capture_output=True, text=True, timeout=seconds + 300)
+    except subprocess.TimeoutExpired:
+        return {"suite": suite, "built": True, "found": False, "note": "timeout"}
+    last = [l for l in r.stdout.strip().split("\n") if l.startswith("{")]
+    res = {"suite": suite, "built": True, "found": False, "seconds": seconds, "seed": seed}
+    if r.returncode != 0 and not last:
+        res.update({"found": True, "structure": suite, "call": "(process aborted)", "observed": "abort, exit %d" % r.returncode, "expected": "no abort", "stderr": r.stderr[-600:]})
+    elif last:
+        try:
+            j = json.loads(last[-1])
+            res.update(j)
+        except Exception:  # noqa: BLE001
+            res["note"] = "unparsable output"
+    json.dump(res, open(cp, "w"))
+    return res
